@@ -115,6 +115,8 @@ type Spec struct {
 	// ImportAlias[pkg] is the alias under which user files import package pkg
 	// ("" = none).
 	ImportAlias map[int]string `json:"importalias,omitempty"`
+	// DotImports lists packages that the root package's files dot-import.
+	DotImports []int `json:"dotimports,omitempty"`
 	// SetsInInject writes the root package's set variables into the injector
 	// files (so that Wire copies them into wire_gen.go) instead of sets.go.
 	SetsInInject bool `json:"setsininject,omitempty"`
